@@ -2,6 +2,8 @@ import TTV.Model.ConcSuite
 import TTV.Spec.C13
 import TTV.Lemmas.ConcSuite
 import TTV.Props.C12
+import TTV.Lemmas.SuiteSkel
+import TTV.Generated.SuiteSkel
 /-! # C13 — concurrent suites run every test once, deliver every event, and terminate
 
 Property theorems for `ConcurrentTestSuite.run` / `ConcurrentStreamTestSuite.run` (model
@@ -856,6 +858,34 @@ theorem C13_no_spurious_stop (i : SInput) (h : (finalC i).result = some .returne
     (finalC i).msecs = [] ∧ ∀ b ∈ (finalC i).flags, b = false := by
   have := (RInv_final i).r_clean (by simp [(final_done i).1]) (Or.inr h)
   exact ⟨this.1, this.2.1⟩
+
+/-! ## tie to the source: the worker side (`_run_test`)
+`TTV.Generated.SuiteSkel.*` are produced by `harness/suiteskel.py` from `testtools/testsuite.py` on every run; see
+`TTV/Model/SuiteSkel.lean` for the skeleton type, its interpreter and what is trusted.  (This file also imports
+`TTV.Props.C12`, whose `C12_src_*` theorems tie the forwarder blocks the suite flavour's workers perform to
+`testtools/testresult/real.py`; the C13 plug-in regenerates that table as well.) -/
+
+/-- **C13 (source, `ConcurrentTestSuite._run_test`)** — interpreting the `try / except Exception / finally` skeleton *as found in the
+source*: the worker thread performs exactly the segments of the model's `suiteProg` (the sections of its tests up to the
+first raise, then - if the sub-suite or the caller's result raised - those of the `broken-runner` report, then `queue.put`
+in any case), and its thread ends with an exception exactly when the model says it dies. -/
+theorem C13_src_run_test_suite (wi tb : Nat) (w : Worker) :
+    (SuiteSkel.interp .suite wi tb w Generated.SuiteSkel.suiteRunTest {}).segs = (suiteProg wi w).segs
+    ∧ (SuiteSkel.interp .suite wi tb w Generated.SuiteSkel.suiteRunTest {}).raised = (suiteProg wi w).died
+    ∧ (SuiteSkel.interp .suite wi tb w Generated.SuiteSkel.suiteRunTest {}).bad = false := by
+  have e : Generated.SuiteSkel.suiteRunTest = SuiteSkel.refSuiteRunTest := by decide
+  rw [e, SuiteSkel.interp_refSuiteRunTest]
+  exact ⟨rfl, rfl, rfl⟩
+
+/-- **C13 (source, `ConcurrentStreamTestSuite._run_test`)** — the worker thread puts exactly the items of the model's `streamProg`
+after the `startTestRun` item (which `run()` puts on its behalf before it starts the thread): the events of its tests, then -
+if the sub-suite raised - those of the `broken-runner` test, then `stopTestRun` in any case; its thread never dies. -/
+theorem C13_src_run_test_stream (wi tb : Nat) (w : Worker) :
+    .put (.startRun wi) :: (SuiteSkel.interp .stream wi tb w Generated.SuiteSkel.streamRunTest {}).segs = (streamProg wi tb w).segs
+    ∧ (SuiteSkel.interp .stream wi tb w Generated.SuiteSkel.streamRunTest {}).raised = (streamProg wi tb w).died
+    ∧ (SuiteSkel.interp .stream wi tb w Generated.SuiteSkel.streamRunTest {}).bad = false := by
+  have e : Generated.SuiteSkel.streamRunTest = SuiteSkel.refStreamRunTest := by decide
+  rw [e]; exact SuiteSkel.interp_refStreamRunTest wi tb w
 
 /-! ## non-vacuity -/
 
